@@ -7,6 +7,7 @@ import coqterm as ct
 import networkx as nx
 from fgutils.its import get_its, split_its, ITS
 from fgutils.parse import parse
+from fgutils.rdkit import graph_to_smiles
 from props.c09 import rand_valid_mol, edit_bonds, make_smiles_case
 
 ID = "C10"
@@ -21,7 +22,11 @@ RULE = ("op split / class_split: random ITS graphs = (a) fgutils.parse of genera
         "'<,h>' defaults, explicit and implicit bonds, aromatic atoms, branches, rings, node labels; with and without init_aam), "
         "(b) random molecules whose bonds are replaced by a mix of tuple (g,h), list [g,h] and scalar labels with orders in "
         "{0,1,1.5,2,3,4} incl. unchanged bonds, (0,0) and scalar 0, all id schemes and shuffled insertion orders, "
-        "(c) ITS.from_smiles of RDKit-written mapped reactions (these also run the SMILES round trip); "
+        "(c) ITS.from_smiles of RDKit-written mapped reactions (these also run the SMILES leg: string -> ITS -> to_smiles -> "
+        "from_smiles, and, started from the generating graphs without fgutils' reader, ITS(get_its(G,H)) -> to_smiles -> "
+        "from_smiles and from_smiles(written reaction) = get_its(G,H)): C/N/O skeletons with orders 1-3, metal-metal "
+        "quadruple bonds ('$', Mo/W/Re/Cr with halide/C/O ligands, order 4 <-> 3/2/1/none), benzene/pyridine rings "
+        "(1.5) with substituent changes and side-chain triple bonds, templates inside the known-finding class; "
         "op resup: ITS graphs named by positive map numbers in any order, get_its(*split_its(its)) computed by the implementation; "
         "op its_split: fully mapped reactions (same atoms both sides, ids = map numbers, independent insertion orders), "
         "split_its(get_its(G,H)) computed by the implementation. non-trivial = at least one tuple/list label with differing "
@@ -138,6 +143,94 @@ def rebuild(rng, g, m, shuffle, aam=True):
     return h
 
 
+METALS = ["Mo", "W", "Re", "Cr"]
+
+
+def _written_case(g, h, src):
+    """A SMILES-leg case written from the source graphs (g, h); the graphs stay with the case as an oracle that
+    does not pass through fgutils' SMILES reader."""
+    smi = graph_to_smiles(g) + ">>" + graph_to_smiles(h)
+    return {"op": "smiles_split", "smiles": smi, "its": ITS.from_smiles(smi).graph, "src": src, "srcG": g, "srcH": h}
+
+
+def rand_metal_case(rng):
+    """Metal-metal quadruple bond (SMILES '$', order 4) on one side, order 3/2/1/none on the other; halide and
+    carbon ligands; shuffled map numbers."""
+    g = nx.Graph()
+    m1, m2 = rng.choice(METALS), rng.choice(METALS)
+    if rng.random() < 0.6:
+        m2 = m1
+    g.add_node(0, symbol=m1)
+    g.add_node(1, symbol=m2)
+    g.add_edge(0, 1, bond=4)
+    nid = 2
+    for m in (0, 1):
+        for _ in range(rng.randint(0, 2)):
+            g.add_node(nid, symbol=rng.choice(["Cl", "Cl", "Br", "C", "O"]))
+            g.add_edge(m, nid, bond=1)
+            nid += 1
+    h = gens.copy_exact(g)
+    other = rng.choice([3, 3, 2, 1, 0, 4])
+    if other == 0:
+        h.remove_edge(0, 1)
+    else:
+        h[0][1]["bond"] = other
+    if nid > 2 and rng.random() < 0.4:
+        lig = rng.randrange(2, nid)
+        m = next(iter(h[lig]))
+        h.remove_edge(m, lig)
+        if rng.random() < 0.5:
+            h.add_edge(1 - m, lig, bond=1)
+    nums = list(range(1, nid + 1))
+    rng.shuffle(nums)
+    for i, k in zip(range(nid), nums):
+        g.nodes[i]["aam"] = k
+        h.nodes[i]["aam"] = k
+    if rng.random() < 0.5:
+        g, h = h, g
+    return _written_case(g, h, "smiles_quad")
+
+
+def rand_aromatic_case(rng):
+    """Benzene / pyridine ring (order 1.5) whose substituents are cut off, moved or bound; also a triple bond
+    in a side chain."""
+    g = nx.Graph()
+    ring = ["C"] * 6
+    if rng.random() < 0.3:
+        ring[0] = "N"
+    for i, sy in enumerate(ring):
+        g.add_node(i, symbol=sy)
+    for i in range(6):
+        g.add_edge(i, (i + 1) % 6, bond=1.5)
+    nid = 6
+    pos = rng.sample(range(1, 6), rng.randint(1, 3))
+    subs = []
+    for p in pos:
+        sy = rng.choice(["Cl", "Br", "O", "N", "C", "C"])
+        g.add_node(nid, symbol=sy)
+        g.add_edge(p, nid, bond=1)
+        subs.append((p, nid))
+        nid += 1
+        if sy == "C" and rng.random() < 0.5:
+            g.add_node(nid, symbol=rng.choice(["C", "N"]))
+            g.add_edge(nid - 1, nid, bond=3)
+            nid += 1
+    h = gens.copy_exact(g)
+    p, x = rng.choice(subs)
+    h.remove_edge(p, x)
+    free = [q for q in range(1, 6) if q not in pos]
+    if free and rng.random() < 0.5:
+        h.add_edge(rng.choice(free), x, bond=1)
+    nums = list(range(1, nid + 1))
+    rng.shuffle(nums)
+    for i, k in zip(range(nid), nums):
+        g.nodes[i]["aam"] = k
+        h.nodes[i]["aam"] = k
+    if rng.random() < 0.5:
+        g, h = h, g
+    return _written_case(g, h, "smiles_arom")
+
+
 def gen_split(rng):
     r = rng.random()
     if r < 0.35:
@@ -156,7 +249,13 @@ def gen_split(rng):
                 smi = rng.choice(KF_TEMPLATES)
                 return {"op": "smiles_split", "smiles": smi, "its": ITS.from_smiles(smi).graph, "src": "smiles_kf"}
             c = make_smiles_case(rng, full=True)
-            return {"op": "smiles_split", "smiles": c["smiles"], "its": ITS.from_smiles(c["smiles"]).graph, "src": "smiles"}
+            return {"op": "smiles_split", "smiles": c["smiles"], "its": ITS.from_smiles(c["smiles"]).graph, "src": "smiles",
+                    "srcG": c["srcG"], "srcH": c["srcH"]}
+        except Exception:
+            pass
+    if r < 0.66:
+        try:
+            return rand_metal_case(rng) if r < 0.63 else rand_aromatic_case(rng)
         except Exception:
             pass
     g = rand_its_graph(rng)
@@ -327,7 +426,7 @@ def coq_case(c, out):
 
 def describe(c):
     d = {"op": c["op"], "src": c["src"]}
-    for k in ("its", "G", "H"):
+    for k in ("its", "G", "H", "srcG", "srcH"):
         if k in c:
             d[k] = ct.graph_py(c[k])
     for k in ("smiles", "pattern", "radius", "ih", "pre"):
@@ -338,7 +437,7 @@ def describe(c):
 
 def from_json(d):
     c = {"op": d["op"], "src": d["src"]}
-    for k in ("its", "G", "H"):
+    for k in ("its", "G", "H", "srcG", "srcH"):
         if k in d:
             c[k] = ct.graph_from_py(d[k])
     for k in ("smiles", "pattern", "radius", "ih", "pre"):
@@ -409,6 +508,14 @@ def classes(c, out):
             yield "label=" + k
         yield "edges=" + ("0" if c["its"].number_of_edges() == 0 else "1+")
     if c["op"] == "smiles_split":
+        comps = set()
+        for _, _, d in c["its"].edges(data=True):
+            comps.update(d["bond"])
+        for o in (1.5, 3, 4):
+            if o in comps:
+                yield "smiles_leg_order=%s" % o
+        if "srcG" in c:
+            yield "smiles_leg_source_graphs"
         yield "smiles_leg=" + ("checked" if smiles_leg_applicable(c["smiles"]) else "not_fully_mapped")
         if in_known_class(c["smiles"]):
             yield "smiles_leg_known_class=" + ("fails" if smiles_round_trip(c["smiles"]) else "survives")
@@ -481,6 +588,32 @@ def smiles_round_trip(smiles):
     return None
 
 
+def _has_aromatic(view):
+    return any(1.5 in lab for lab in view[1].values())
+
+
+def source_graph_leg(c):
+    """The SMILES sentence started from GRAPHS (no fgutils reader on the way in): the ITS of the source graphs,
+    written to reaction SMILES and read back, is the same ITS up to map-preserving isomorphism; and reading the
+    reaction written from the source graphs gives their superposition."""
+    msgs = []
+    try:
+        its0 = ITS(get_its(gens.copy_exact(c["srcG"]), gens.copy_exact(c["srcH"])))
+        want = _its_view(its0.graph)
+        got = _its_view(ITS.from_smiles(c["smiles"]).graph)
+        back = _its_view(ITS.from_smiles(its0.to_smiles()).graph)
+    except Exception as e:
+        return ["SMILES leg from source graphs raised %s: %s" % (type(e).__name__, e)]
+    # RDKit may perceive a ring of the written molecule as aromatic (orders become 1.5): not comparable then
+    if _has_aromatic(got) == _has_aromatic(want) and got != want:
+        msgs.append("ITS.from_smiles(%s) is not the superposition of the graphs the reaction was written from: "
+                    "%r vs %r" % (c["smiles"], sorted(map(repr, got[1].items())), sorted(map(repr, want[1].items()))))
+    if _has_aromatic(back) == _has_aromatic(want) and back != want:
+        msgs.append("ITS(get_its(G,H)).to_smiles() read back differs from the ITS: %r vs %r"
+                    % (sorted(map(repr, back[1].items())), sorted(map(repr, want[1].items()))))
+    return msgs
+
+
 def known_witness_fails(entry):
     return smiles_round_trip(KF_WITNESS) is not None
 
@@ -499,4 +632,6 @@ def py_invariants(c, out):
                 msgs.append({"msg": msg, "known_class": KNOWN_CLASS})
             else:
                 msgs.append(msg)
+        if "srcG" in c and not in_known_class(c["smiles"]):
+            msgs.extend(source_graph_leg(c))
     return msgs
